@@ -291,6 +291,18 @@ fn field_arith<F: FS>(t: &mut Transcript, quick: bool) {
         let out = if bforms[fi].op == '/' && small[b] == BigUint::from(0u8) { vec![0xDD] } else { (bforms[fi].f)(lf[a], sf[b]).to_le() };
         Rec { op: format!("{}:{}", F::NAME, bforms[fi].name), input: [to_le_n(&limb[a], n), to_le_n(&small[b], n)].concat(), output: out }
     });
+    // Montgomery-domain limb patterns (internal representation = structured limb pattern, in both
+    // word sizes): all pairs through one form per operation, and every unary form
+    let mp = mont_patterns(&p, n, 0);
+    let mf: Vec<F> = mp.iter().map(F::of).collect();
+    let nm = mp.len();
+    let work: Vec<(usize, usize, usize)> = (0..4 * nm * nm).map(|i| ([0usize, 7, 14, 21][i % 4], (i / 4) / nm, (i / 4) % nm)).collect();
+    t.emit_par(&work, |&(fi, a, b)| {
+        let out = if bforms[fi].op == '/' && mp[b] == BigUint::from(0u8) { vec![0xDD] } else { (bforms[fi].f)(mf[a], mf[b]).to_le() };
+        Rec { op: format!("{}:montgomery-pattern:{}", F::NAME, bforms[fi].name), input: [to_le_n(&mp[a], n), to_le_n(&mp[b], n)].concat(), output: out }
+    });
+    let work: Vec<(usize, usize)> = (0..uforms.len() * nm).map(|i| (i / nm, i % nm)).collect();
+    t.emit_par(&work, |&(fi, a)| Rec { op: format!("{}:montgomery-pattern:{}", F::NAME, uforms[fi].name), input: to_le_n(&mp[a], n), output: (uforms[fi].f)(mf[a]).map(|x| x.to_le()).unwrap_or(vec![0xDD]) });
     // folds and From<uN>
     let lv: Vec<F> = [0usize, 1, 2, ns - 1, ns / 2, ns / 3].iter().map(|&i| sf[i]).collect();
     let mut lists: Vec<Vec<usize>> = vec![vec![]];
